@@ -1,10 +1,10 @@
 SPECIFICATION MCSpec
 CONSTANTS
-  IDS = {"a", "b"}
-  RANGE = {1, 2, 3}
+  IDS = {"a"}
+  RANGE = {1, 2}
   K = 2
   ATOMIC = FALSE
   FULL = FALSE
   STORAGE = FALSE
-INVARIANT Inv
+INVARIANT RegistryIsDatabase
 CHECK_DEADLOCK FALSE
